@@ -75,7 +75,7 @@ impl Check for C25 {
         "C25"
     }
     fn cases(&self, tier: Tier) -> u64 {
-        tier.pick(1600, 100_000)
+        tier.pick(2400, 100_000)
     }
     fn rule(&self) -> String {
         "case (even) = a seeded multi-replica history of text edits interleaved with mark/unmark calls (3 names, overlapping ranges, all four expand settings, null values, concurrent marks, deletes of marked text and of anchor neighbours, blocks) and merges; on every replica, the merged document, its reload and at up to 3 historical head sets: marks(), get_marks(i) at sampled positions, the marks of spans() must agree with each other, marks_at(current heads) (walked path) must equal marks() (indexed path), and all must equal the marking computed by the independent interpreter (highest-id active mark per name at each position; null = unmarked). case (odd) = boundary growth: on a fresh text one mark with a known ExpandMark over [a,b); text is then inserted exactly at a and exactly at b (same replica, another replica + merge) and must be covered iff expand-before / expand-after; on a non-expanding side the neighbouring character beyond the boundary is deleted in half of the cases (optionally carrying a mark of another name that thereby collapses) — inserted text must still not be covered; on an expanding side a deleted neighbour makes the outcome ambiguous and is not generated. History cases additionally plant a nested-marks motif (inner X, covering Y, newer X that outlives the inner one). Non-trivial = ≥2 marks of one text or a judged boundary insert; distinct by (mark layout, text).".into()
